@@ -288,8 +288,8 @@ def classes(case):
 
 
 @st.composite
-def draw_step(draw, x, inputs, unknown):
-    """x: current NumPy value.  Returns a step valid for x (may append to inputs)."""
+def draw_step(draw, x, inputs, unknown, zc=False):
+    """x: current NumPy value.  Returns a step valid for x (may append to inputs).  zc: an input carries explicit zero-size chunks."""
     nd = x.ndim
     numeric = x.dtype.kind in "iuf"
     if unknown:
@@ -300,13 +300,10 @@ def draw_step(draw, x, inputs, unknown):
         if kind == "map_blocks" and x.dtype.kind != "b":
             return {"op": "map_blocks"}
         return {"op": "reduce", "f": draw(st.sampled_from(["sum", "max"] if x.size else ["sum"])), "axis": None, "keepdims": False}
+    if zc or x.size == 0:
+        return draw(draw_plain_step(x, inputs, zc))
     menu = ["ew", "ew", "binop", "getitem", "getitem", "reduce", "reduce", "rechunk", "transpose", "concat", "stack", "map_blocks", "flip", "expand", "broadcast"]
-    if x.size == 0:
-        # Zero-length intermediate results (e.g. after an empty slice) keep flowing through the steps above.  The reshape-based
-        # and padding steps are not drawn for them: several of those raise on multi-block empty arrays (reshape/ravel/mask/unique/
-        # roll(axis=None)/repeat/pad/coarsen - reported under C24's empty-array stratum); C25 is about metadata of results that exist.
-        pass
-    elif nd >= 1:
+    if nd >= 1:
         menu += ["reshape", "reshape", "take", "roll", "repeat", "pad", "cum", "coarsen"]
     if numeric and nd >= 1 and x.size:
         menu += ["diff", "mask", "unique"]
@@ -330,7 +327,7 @@ def draw_step(draw, x, inputs, unknown):
             shp = list(x.shape[draw(st.integers(1, nd)) :])
         else:
             shp = [1 if draw(st.booleans()) else s for s in x.shape]
-        inputs.append(draw(C.arr(shape=shp, dtypes=("i8", "f8"), zero_p=0.03)))
+        inputs.append(draw(C.arr(shape=shp, dtypes=("i8", "f8"), zero_p=0.0)))
         return {"op": "binop", "f": draw(st.sampled_from(["add", "mul", "lt", "maximum"])), "input": len(inputs) - 1, "swap": draw(st.booleans())}
     if op == "getitem":
         index = []
@@ -396,14 +393,14 @@ def draw_step(draw, x, inputs, unknown):
             ax = draw(st.integers(-(nd + 1), nd))
             shp = list(x.shape)
         if other == "input":
-            inputs.append(draw(C.arr(shape=shp, dtypes=("i8", "f8"), zero_p=0.03)))
+            inputs.append(draw(C.arr(shape=shp, dtypes=("i8", "f8"), zero_p=0.0)))
             other = len(inputs) - 1
         s = {"op": op, "input": other, "axis": ax}
         if op == "concat":
             s["side"] = draw(st.sampled_from(["left", "right"]))
         return s
     if op == "rechunk":
-        return {"op": "rechunk", "chunks": draw(C.shape_chunks(list(x.shape), zero_p=0.03))}
+        return {"op": "rechunk", "chunks": draw(C.shape_chunks(list(x.shape), zero_p=0.0))}
     if op == "mask":
         return {"op": "mask", "k": draw(st.integers(-3, 3))}
     if op == "unique":
@@ -447,6 +444,54 @@ def draw_step(draw, x, inputs, unknown):
 
 
 @st.composite
+def draw_plain_step(draw, x, inputs, zc):
+    """Steps for the two pathological strata: pipelines whose FIRST input has explicit zero-size chunks, and zero-length
+    intermediate results (e.g. after an empty slice).  Almost every other operation has its own failures on such arrays, which are
+    explored and listed per operation under C19-C24/C26/C27 (reshape/ravel/pad/repeat/tril/take/rechunk planning/min/max/cumsum/
+    coarsen/unique/mask ... on zero-size chunks or multi-block empty arrays); a pipeline would only re-find them at its first such
+    step.  C25 keeps the strata for the metadata clauses of the operations that do handle them: elementwise, basic indexing,
+    transpose/flip, concatenate/stack with itself, map_blocks, sum/any/mean reductions."""
+    nd = x.ndim
+    menu = ["ew", "ew", "getitem", "getitem", "transpose", "flip", "concat", "stack", "map_blocks", "reduce"]
+    op = draw(st.sampled_from(menu))
+    if op == "ew":
+        fs = ["neg", "abs", "add1", "mul2.5", "gt0", "astype_f4", "astype_i8", "square"]
+        if x.dtype.kind == "b":
+            fs = ["gt0", "astype_i8", "astype_f4"]
+        return {"op": "ew", "f": draw(st.sampled_from(fs))}
+    if op == "getitem":
+        index = []
+        for n in x.shape:
+            k = draw(st.sampled_from(["slice", "slice", "full", "int"]))
+            if k == "int" and n > 0:
+                index.append(draw(st.integers(-n, n - 1)))
+            elif k == "full":
+                index.append({"slice": [None, None, None]})
+            else:
+                index.append({"slice": [draw(st.one_of(st.none(), st.integers(-n, n))), draw(st.one_of(st.none(), st.integers(-n, n))), draw(st.sampled_from([None, 1, 2, -1]))]})
+        return {"op": "getitem", "index": index}
+    if op == "transpose":
+        return {"op": "transpose", "axes": list(draw(st.permutations(list(range(nd)))))}
+    if op == "flip":
+        return {"op": "flip", "axis": draw(st.integers(-nd, nd - 1)) if nd and draw(st.booleans()) else None}
+    if op == "concat" and nd >= 1:
+        return {"op": "concat", "input": "self", "axis": draw(st.integers(0, nd - 1)), "side": "right"}
+    if op in ("concat", "stack"):
+        return {"op": "stack", "input": "self", "axis": draw(st.integers(-(nd + 1), nd))}
+    if op == "map_blocks" and x.dtype.kind != "b":
+        return {"op": "map_blocks"}
+    f = draw(st.sampled_from(["sum", "any", "mean"]))
+    mode = draw(st.sampled_from(["none", "int", "int", "tuple"]))
+    if mode == "none" or nd == 0:
+        ax = None
+    elif mode == "int":
+        ax = draw(st.integers(-nd, nd - 1))
+    else:
+        ax = draw(st.lists(st.integers(0, nd - 1), min_size=1, unique=True))
+    return {"op": "reduce", "f": f, "axis": ax, "keepdims": draw(st.booleans()), "split_every": draw(st.sampled_from([None, None, 2, 3]))}
+
+
+@st.composite
 def pipeline(draw):
     nd = draw(st.sampled_from([1, 1, 2, 2, 2, 3]))
     top = {1: 9, 2: 6, 3: 4}[nd]
@@ -463,7 +508,7 @@ def pipeline(draw):
             # keep arrays tiny: force a reduction
             s = {"op": "reduce", "f": "sum", "axis": 0, "keepdims": False, "split_every": None}
         else:
-            s = draw(draw_step(x, inputs, unknown))
+            s = draw(draw_step(x, inputs, unknown, zc=A.has_zero_chunk(first["chunks"])))
         nps = [A.build_np(a) for a in inputs]
         try:
             with np.errstate(all="ignore"):
